@@ -23,6 +23,7 @@ func (e *Engine) newCtx(key string) *FuncCtx {
 	if fd == nil {
 		return c
 	}
+	c.renames = e.renamesFor(key, fd)
 	// loop ordinals: for / range statements and iterator-closure calls, in
 	// source order
 	n := 0
